@@ -858,7 +858,9 @@ class ValueFunc(Value):
         self.secure = True
 
     def __hash__(self):
-        return hash(self.name)
+        # (not the name: def renames a function value, and equality is
+        # identity)
+        return object.__hash__(self)
 
     def __eq__(self, other):
         return self is other
